@@ -27,6 +27,9 @@ package resolver
 //@   assert at call middleware/resolver.minCut#1: nsInfo.nsTTL <= 2147483647 ==> inst(arg2) <= inst(lastret("time.Now")) + int64(nsInfo.nsTTL) * 1000000000
 //@   assert at call middleware/resolver.minCut#1: len(rs.parentDS) > 0 && lastret("middleware/resolver.minRRSetTTL") <= 2147483647 ==> inst(arg2) <= inst(lastret("time.Now")) + int64(lastret("middleware/resolver.minRRSetTTL")) * 1000000000
 //@   assert at call middleware/resolver.minCut#1: calls("time.Now") == 1
+//@   # "... and a 12 h ceiling": the lease handed on to the answer's cut, the descent and deeper delegations - not only
+//@   # the delegation cache's own entry - ends at most 12 h after the referral was observed
+//@   assert at call middleware/resolver.minCut#1: inst(arg2) <= inst(lastret("time.Now")) + 43200000000000
 //@   assert at call middleware/resolver.minRRSetTTL#1: arg0 == rs.parentDS
 //@   assert at call middleware/resolver.noteCut#1: arg1 == lastret("middleware/resolver.minCut") && arg2 == lastret("middleware/resolver.minCut", 1)
 //@   assert at call (*internal/authority.Cache).SetUntil#1: arg1 == key && arg4 == lastret("middleware/resolver.minCut")
